@@ -55,6 +55,7 @@ def curved(chk, shapes):
                 return "ok", s.radius, s.centroid, rad
             for p in chk.explore(fkey, run):
                 if p.kind != "return":
+                    chk.path_raised(fkey, p)
                     continue
                 t = path_tag(p)
                 if p.value[0] == "missing":
@@ -82,6 +83,7 @@ def centred(chk, shapes):
     Vrow = [sp.Function("V", real=True)(PS.N.k, sp.Integer(j)) for j in range(3)]
     for p in chk.explore(fk, run_b, assumptions=PS.N.facts()):
         if p.kind != "return":
+            chk.path_raised(fk, p)
             continue
         rad, centre = p.value
         d = DEFS.get(ex(rad))
@@ -106,6 +108,7 @@ def centred(chk, shapes):
         return "ok", s.radius, s.centroid, eqs
     for p in chk.explore(fk, run_i, assumptions=PS.F.facts()):
         if p.kind != "return":
+            chk.path_raised(fk, p)
             continue
         t = path_tag(p)
         kind, rad, centre, eqs = p.value
@@ -145,6 +148,7 @@ def centred(chk, shapes):
     Vm = [sp.Function("Vm", real=True)(M.NV.k, sp.Integer(j)) for j in range(3)]
     for p in chk.explore(fk, run_g, assumptions=M.NV.facts()):
         if p.kind != "return":
+            chk.path_raised(fk, p)
             continue
         rad, centre = p.value
         d = DEFS.get(ex(rad))
@@ -165,6 +169,7 @@ def centred(chk, shapes):
         return s.radius, s.centroid
     for p in chk.explore(fk, run_gi, assumptions=M.NV.facts()):
         if p.kind != "return":
+            chk.path_raised(fk, p)
             continue
         rad, centre = p.value
         d = DEFS.get(ex(rad))
